@@ -76,8 +76,11 @@ class TypeRegistry:
             if not self.validator(f):
                 raise TypeError(f'Invalid register target: {f}, must pass <{self.validator}> validate')
             self._registry.insert(0, (detector, f, priority))
-            if priority:
-                self._registry.sort(key=lambda v: -v[2])
+            # stable sort: the latest registration stays first among equal priorities,
+            # and must run for priority=0 too (it may be inserted in front of a higher priority)
+            self._registry.sort(key=lambda v: -v[2])
+            # a new registration can change the resolution of any type already cached
+            self._cache.clear()
             return f
 
         # before runtime, type will be compiled and applied
